@@ -117,7 +117,7 @@ func (m *DefaultInterfaceMocker) When(specArg ...interface{}) *When {
 		when *When
 		err  error
 	)
-	if when, err = CreateWhen(m, m.funcDef, specArg, nil, true); err != nil {
+	if when, err = CreateWhen(m, m.funcDef, givenList(specArg), nil, true); err != nil {
 		panic(err)
 	}
 	m.applyByIFaceMethod(m.ctx, m.iFace, m.method, m.funcDef, m.callback)
@@ -141,7 +141,7 @@ func (m *DefaultInterfaceMocker) Return(value ...interface{}) *When {
 		when *When
 		err  error
 	)
-	if when, err = CreateWhen(m, m.funcDef, nil, value, true); err != nil {
+	if when, err = CreateWhen(m, m.funcDef, nil, givenList(value), true); err != nil {
 		panic(err)
 	}
 	m.applyByIFaceMethod(m.ctx, m.iFace, m.method, m.funcDef, m.callback)
